@@ -337,6 +337,8 @@ if __name__ == "__main__":
         from hivecheck.report import Ctx
         from hivecheck import selftest as st, AnalysisError, loader as _loader
         ALL = [f"C{i:02d}" for i in range(1, 21)]
+        if os.environ.get("SWEEP_PROPS"):   # e.g. the syntax-tree-only checks (C01 / C16 re-run the type checker per mutant: ~10 s each)
+            ALL = [p for p in os.environ["SWEEP_PROPS"].split(",") if p]
         for p in ALL:
             mod = importlib.import_module(f"hivecheck.props.{p.lower()}")
             _loader.set_inline_for(p)
